@@ -105,14 +105,16 @@ VALUE_SYMS = [s for s in FULL_SYMS if s not in ("DQ", "NUL", "BAD")]
 VALUE_SUB = ["x", "O", "R", "d1", "STAR", "QM", "BS", "SQ", "SL", "SP", "MINUS", "DOT", "COLON", "LP", "SEMI", "PCT", "EACUTE"]
 
 
-def stage_quote_enum(run, n, alphabet, name="quote_enum", random=0, rlen=40):
+def stage_quote_enum(run, n, alphabet, name="quote_enum", random=0, rlen=40, words=False):
     outs, argsets = [], []
-    k = NPROC if not random else 1
+    k = NPROC if not (random or words) else 1
     for i in range(k):
         o = os.path.join(run.work, "%s_%d.ndjson" % (name, i))
         a = ["quote-enum", "-n", str(n), "-alphabet", ",".join(alphabet), "-out", o, "-shard", "%d/%d" % (i, k)]
         if random:
             a += ["-random", str(random), "-len", str(rlen), "-seed", str(run.seed + 11)]
+        if words:
+            a.append("-words")
         outs.append(o)
         argsets.append(a)
     sums = run.harness_parallel(argsets)
